@@ -150,6 +150,7 @@ func body11(c *sched.Ctl, cs Case, v *ev.Verdict) {
 		err error
 	}
 	intents := map[int]intent{}
+	errIntents := map[error]intent{} // results of error-only constructed promises, by their unique error
 	sawCtorResult := false
 	newProm := func() *prom {
 		p := &prom{id: len(proms)}
@@ -161,8 +162,15 @@ func body11(c *sched.Ctl, cs Case, v *ev.Verdict) {
 				kind = ""
 			}
 			p.hasRes, p.val, p.err, p.trues = true, nextVal, errOf(kind, nextVal), 1
-			p.p = promise.NewPromiseWithResult(p.val, p.err)
-			intents[p.val] = intent{p, p.err}
+			if cs.PreRes == "custom" && p.id%2 == 1 {
+				// the error-only constructor: the result is (zero value, err); the error is unique
+				p.val = 0
+				p.p = promise.NewPromiseWithErr[int](p.err)
+				errIntents[p.err] = intent{p, p.err}
+			} else {
+				p.p = promise.NewPromiseWithResult(p.val, p.err)
+				intents[p.val] = intent{p, p.err}
+			}
 			sawCtorResult = true
 		} else {
 			p.p = promise.NewPromise[int]()
@@ -435,6 +443,25 @@ func body11(c *sched.Ctl, cs Case, v *ev.Verdict) {
 						}
 						if !ok {
 							fail("promisecontainer:stale-result", "await #%d returned the result of promise %d which was not the container's current promise at any instant of the call (history %v, call spans [%d,%d])", a.id, src.id, hist, a.startIdx, a.endIdx)
+						}
+					}
+					return
+				}
+				if in, known := errIntents[err]; known {
+					// the (zero, unique error) result of a promise made with NewPromiseWithErr
+					a.src = in.p
+					if !cs.Container && in.p != single {
+						fail("promise:foreign-result", "await #%d returned an error set on another promise", a.id)
+					}
+					if cs.Container {
+						ok := false
+						for k := a.startIdx; k <= a.endIdx; k++ {
+							if hist[k] == in.p.id {
+								ok = true
+							}
+						}
+						if !ok {
+							fail("promisecontainer:stale-result", "await #%d returned the result of promise %d which was not the container's current promise at any instant of the call (history %v, call spans [%d,%d])", a.id, in.p.id, hist, a.startIdx, a.endIdx)
 						}
 					}
 					return
